@@ -1,5 +1,6 @@
 import AidlVerif.Props.Parser
 import AidlVerif.Props.C01
+import AidlVerif.Lemmas.RunM
 
 /-!
 # Theorems about the parser model shared by C02, C03, C04, C14, C18
@@ -9,35 +10,6 @@ import AidlVerif.Props.C01
 
 namespace Aidl.Props.PL
 open Aidl Aidl.Actions Aidl.Lexer
-
-/-! ### running the action monad -/
-
-def runM {α} (x : M α) (env : Env) (ds : List Diag) : Except Panic (α × List Diag) := (x.run env).run ds
-
-theorem runM_bind {α β} (x : M α) (f : α → M β) (env : Env) (ds : List Diag) :
-    runM (x >>= f) env ds = match runM x env ds with
-      | .error e => .error e
-      | .ok (a, ds') => runM (f a) env ds' := by
-  simp only [runM, ReaderT.run_bind, StateT.run_bind]
-  cases h : (x.run env).run ds <;> rfl
-theorem runM_pure {α} (a : α) (env : Env) (ds : List Diag) : runM (pure a : M α) env ds = .ok (a, ds) := rfl
-theorem runM_read (env : Env) (ds : List Diag) : runM (read : M Env) env ds = .ok (env, ds) := rfl
-theorem runM_throw {α} (m : Panic) (env : Env) (ds : List Diag) : runM (throw m : M α) env ds = .error m := rfl
-theorem runM_bad {α} (k : PanicKind) (m : String) (env : Env) (ds : List Diag) : runM (bad k m : M α) env ds = .error ⟨k, m⟩ := rfl
-theorem runM_pushDiag (d : Diag) (env : Env) (ds : List Diag) : runM (pushDiag d) env ds = .ok ((), ds ++ [d]) := rfl
-
-/-! ### ranges -/
-
-/-- `Position::new` succeeds exactly on the offsets the line/column lookup accepts (character
-    boundaries inside the input) and takes line and column from it; it pushes no diagnostic -/
-theorem mkPos_eq (env : Env) (ds : List Diag) (off : Nat) :
-    runM (mkPos off) env ds =
-      match env.lineCol off with
-      | some lc => .ok ({ off := off, line := lc.1, col := lc.2 }, ds)
-      | none => .error ⟨.bounds, s!"Range::new: offset {off} is not a character boundary inside the input"⟩ := by
-  unfold mkPos
-  simp only [runM_bind, runM_read]
-  cases env.lineCol off <;> rfl
 
 /-- **Every range built by `Range::new`**: both offsets are accepted by the lookup, and line and
     column of both ends are the lookup's (otherwise the model panics, as `get_by_cluster` does). -/
